@@ -101,8 +101,13 @@ func c13storage(which int, balanceOnly bool) {
 		vsym.Assume(pet == 0)
 	}
 	dt := 86400.0
+	// the two "target" inputs (flood air space / minimum operating volume) are arbitrary: nothing in
+	// the property lets them move the spill threshold away from the full-supply volume or change
+	// the release rules
+	tminV, tminC := vsym.Float64("targetMinimumVolume"), vsym.Float64("targetMinimumCapacity")
+	vsym.Assume(tminV >= 0 && tminV <= 4000000 && tminC >= 0 && tminC <= 4000000)
 	volTS, outTS, rainV, evapV := c13one(0), c13one(0), c13one(0), c13one(0)
-	v1, l1, a1 := storageWaterBalance(c13one(rain), c13one(pet), c13one(inflow), c13one(demand), c13one(0), c13one(0),
+	v1, l1, a1 := storageWaterBalance(c13one(rain), c13one(pet), c13one(inflow), c13one(demand), c13one(tminV), c13one(tminC),
 		v0, 0, 0, dt, n, lv, vol, ar, mn, mx, volTS, outTS, rainV, evapV)
 	vsym.Reach("returned")
 	if balanceOnly {
